@@ -638,24 +638,22 @@ var bufferPool = &sync.Pool{ //nolint:gochecknoglobals
 
 func (c *Client) handleAgentCallback(event Event) { //nolint:cyclop
 	c.mux.Lock()
-	if c.closed {
-		c.mux.Unlock()
-
-		return
-	}
+	closed := c.closed
 	transaction, found := c.t[event.TransactionID]
 	if found {
 		delete(c.t, transaction.id)
 	}
 	c.mux.Unlock()
 	if !found {
-		if c.handler != nil && !errors.Is(event.Error, ErrTransactionStopped) {
+		if !closed && c.handler != nil && !errors.Is(event.Error, ErrTransactionStopped) {
 			c.handler(event)
 		}
 		// Ignoring.
 		return
 	}
-	if atomic.LoadInt32(&c.maxAttempts) <= transaction.attempt || event.Error == nil {
+	// A closed client completes its transactions with what the agent reports
+	// (ErrAgentClosed from Agent.Close) instead of dropping them.
+	if closed || atomic.LoadInt32(&c.maxAttempts) <= transaction.attempt || event.Error == nil {
 		// Transaction completed.
 		transaction.handle(event)
 		putClientTransaction(transaction)
